@@ -112,13 +112,13 @@ NOT_YET = {}
 
 # additions of the wave-7 session, appended to the level notes above
 EXTRA_NOTES = {
-    "C04": " The quicswarm whitelist case is repeated after the guarded node itself dialled identities the rejected peer does not hold at that peer's transport address; a node that addresses a rejected peer under its true identity is not judged (the whitelists govern inbound contacts).",
+    "C04": " The quicswarm whitelist case is repeated after the guarded node itself dialled identities the rejected peer does not hold at that peer's transport address; a node that addresses a rejected peer under its true identity is not judged (the whitelists govern inbound contacts). On-path scenario e5: from a fresh transport address the attacker repeats a captured InitHello of H verbatim and then completes a handshake under its own key; its data must be attributed to its own key.",
     "C07": " One swarm-level case (plain pass, ~9 s): 27 pairs of p2pkeswarms on a scripted network, a fault script per pair, the network healing one second after the 7.5 s housekeeping pass; no Tell returning nil after K=10 delivered handshake messages of the teller and at least 4 s is reported, unfinished pairs are inconclusive.",
     "C09": " The half-length control also applies to stacks built on the in-process transport alone (nothing is lost there either).",
     "C05": " Two bound-channel attacks run after the session with K has lapsed (120 ms keep-alive, an unanswered Send) and only judge what the channel reports, delivers and encrypts; whether it comes back up with its peer is C07's.",
-    "C10": " In the ask-replies family the serving peer also asks the destination a multi-part request while answering it (request and reply from one source under one group id). A failed-tell family lets the scripted transport refuse one fragment of a Tell with an error before the sender tells more messages of the same part count.",
+    "C10": " In the ask-replies family the serving peer also asks the destination a multi-part request while answering it (request and reply from one source under one group id). A failed-tell family lets the scripted transport refuse one fragment of a Tell with an error before the sender tells more messages of the same part count. A concurrent-tells family has six goroutines of one sender instance tell eight multi-part messages each (equal part counts) to one destination at once and feeds what was emitted to a fresh destination.",
     "C11": " Asker-restart family: the asking message-box layer is re-created on the same address while withheld replies to its predecessor are delivered to it. Close-unserved family: hundreds of short trials of asks waiting at a destination where nobody serves, then Close (600 on 8 goroutines for sshswarm); any success there is a violation.",
-    "C12": " Three more stacks (frag, p2pke, quic) sit on an in-memory transport whose Close does its work and then reports an error. A held-callback family (one callback held while Close is called, sibling receivers watched) only counts, per stack, siblings that stay parked until the callback returns: late is not stuck, and the unchanged tree shows it in frag(mem) and p2pke(mem).",
+    "C12": " Three more stacks (frag, p2pke, quic) sit on an in-memory transport whose Close does its work and then reports an error. A held-callback family (one callback held while Close is called, sibling receivers watched) only counts, per stack, siblings that stay parked until the callback returns: late is not stuck, and the unchanged tree shows it in frag(mem) and p2pke(mem). An sshswarm node is also closed while its first Tell is inside the outbound connection setup (a raw ssh server holds the handshake): with the peer's end still open nothing of the closed node may stay parked. Channel swarms of one multiplexer are opened, closed, re-opened under the same id and closed again through stale handles (40-400 seeded histories, five mux kinds), with calls blocked at every first Close.",
     "C15": " Every other end-to-end case ends with asks on a channel that is open at the sender only, back to back between asks on an open channel; an answered one, or a handler of another channel seeing it, is a violation.",
 }
 
